@@ -355,11 +355,11 @@ func (db *SpecDB) loadSpecFile(path, pkgPath string, assumed bool) error {
 		case "field":
 			// field T.f calls <funckey>
 			f := strings.Fields(d.text)
-			if len(f) != 3 || f[1] != "calls" {
-				return fmt.Errorf("%s: field directive: field T.f calls <func>", where)
+			if len(f) != 5 || f[1] != "calls" || f[3] != "via" {
+				return fmt.Errorf("%s: field directive: field T.f calls <func> via <ghostmap>", where)
 			}
 			j := strings.LastIndex(f[0], ".")
-			db.FieldCalls[expandTypeKey(f[0][:j], pkgPath, imports)+"."+f[0][j+1:]] = expandFuncKey(f[2], pkgPath, imports)
+			db.FieldCalls[expandTypeKey(f[0][:j], pkgPath, imports)+"."+f[0][j+1:]] = expandFuncKey(f[2], pkgPath, imports) + "\x00" + f[4]
 		case "pred":
 			reset()
 			// pred Name(params) = body
